@@ -43,9 +43,9 @@ HEADER = r"""
 ;; the KEY OBJECT of ephemeron `ref` (chain)
 (define (mk! i kind hold? vkind)
   (let* ((k (fresh-key kind i))
-         (v (case vkind ((plain) (list 'val i)) ((self) (list 'val i k)) (else (list 'val i)))))
+         (v (case vkind ((plain) (list 'val i)) ((self) (list 'val i k)) ((big) (make-vector 300 i)) (else (list 'val i)))))
     (if hold? (vector-set! held i k))
-    (vector-set! expect i (case vkind ((plain) (list 'val i)) ((self) 'self) (else (list 'val i))))
+    (vector-set! expect i (case vkind ((plain) (list 'val i)) ((self) 'self) ((big) 'big) (else (list 'val i))))
     (vector-set! ephs i (make-ephemeron k v))
     0))
 ;; chained: key of ephemeron i is the *value object* of ephemeron j (alive only while j's key is alive)
@@ -57,6 +57,7 @@ HEADER = r"""
 (define (value-ok? i)
   (let* ((e (vector-ref ephs i)) (v (ephemeron-value e)) (x (vector-ref expect i)))
     (cond ((eq? x 'self) (and (pair? v) (= 3 (length v)) (eq? (caddr v) (ephemeron-key e)) (equal? (cadr v) i)))
+          ((eq? x 'big) (and (vector? v) (= 300 (vector-length v)) (eqv? (vector-ref v 0) i) (eqv? (vector-ref v 299) i)))
           (else (equal? v x)))))
 (define (snapshot)
   (let lp ((i (- N 1)) (acc '()))
@@ -69,15 +70,19 @@ HEADER = r"""
                               (if (and (vector-ref held i) (not (eq? (vector-ref held i) (ephemeron-key e)))) 1 0))
                         acc)
                   acc))))))
+(define junkv (make-vector 8 #f))
+(define (make-junk n) (let lp ((i 0) (acc '())) (if (< i n) (lp (+ i 1) (cons (make-vector (modulo i 3) i) acc)) acc)))
 (define (settle rounds) (do ((r 0 (+ r 1))) ((= r rounds)) (scrub 60) (gc)))
 (define (run-eph ops)
-  (vector-fill! held #f) (vector-fill! ephs #f) (vector-fill! expect #f)
+  (vector-fill! held #f) (vector-fill! ephs #f) (vector-fill! expect #f) (vector-fill! junkv #f)
   (for-each
    (lambda (op)
      (case (car op)
        ((mk) (+ 1 (mk! (cadr op) (caddr op) (cadddr op) (car (cddddr op)))))
        ((chain) (+ 1 (mk-chain! (cadr op) (caddr op))))
        ((drop) (vector-set! held (cadr op) #f))
+       ((junk) (vector-set! junkv (cadr op) (make-junk (caddr op))))
+       ((unjunk) (vector-set! junkv (cadr op) #f))
        ((gc) (gc))
        ((obs) (settle 3) (%obs (cons (cadr op) (snapshot))))))
    ops))
@@ -99,7 +104,7 @@ def gen_history(rng, n=48):
     for i in idx[:nmk]:
         kind = rng.choice(KINDS)
         hold = rng.random() < 0.5
-        vkind = rng.choice(["plain", "self", "self"])
+        vkind = rng.choice(["plain", "self", "self", "big"])
         ops.append(["mk", i, kind, "#t" if hold else "#f", vkind])
         info[i] = vkind
         if hold:
@@ -141,6 +146,59 @@ def gen_history(rng, n=48):
         ops.append(["obs", obs])
         snaps.append(model())
     return {"ops": ops, "snaps": snaps, "chain": chain, "info": info}
+
+
+def gen_layout_history(rng, n=48):
+    """Few ephemerons on a deliberately fragmented heap: small ephemerons fall into low holes opened by dropping junk and
+    collecting, large values go to the tail of the heap, so that a dependent ephemeron can sit at a LOWER address than the
+    ephemeron whose value keeps its key alive (the order in which a heap scan meets them is then reversed)."""
+    ops = []
+    held = set()
+    info = {}
+    chain = {}
+    made = []
+    free = list(range(n))
+    rng.shuffle(free)
+    nchains = rng.randrange(1, 4)
+    for c in range(nchains):
+        ops.append(["junk", c, rng.choice([200, 1000, 4000])])
+        j = free.pop()
+        ops.append(["mk", j, rng.choice(KINDS), "#t", "big"])
+        info[j] = "big"
+        held.add(j)
+        made.append(j)
+        ops.append(["unjunk", c])
+        if rng.random() < 0.8:
+            ops.append(["gc"])
+        for _ in range(rng.randrange(1, 3)):
+            i = free.pop()
+            ops.append(["chain", i, j])
+            chain[i] = j
+            made.append(i)
+            if rng.random() < 0.3:
+                ops.append(["gc"])
+    snaps = []
+
+    def model():
+        alive = {i: (i in held) for i in info}
+        for _ in range(len(made) + 1):
+            for i in made:
+                if i in chain:
+                    alive[i] = alive.get(chain[i], False)
+        return dict(alive)
+
+    ops.append(["obs", 0])
+    snaps.append(model())
+    k = 0
+    for rnd in range(rng.randrange(1, 3)):
+        for i in list(held):
+            if rng.random() < 0.4:
+                ops.append(["drop", i])
+                held.discard(i)
+        k += 1
+        ops.append(["obs", k])
+        snaps.append(model())
+    return {"ops": ops, "snaps": snaps, "chain": chain, "info": info, "family": "layout"}
 
 
 def ops_text(ops):
@@ -308,7 +366,7 @@ def check(rep, tier, seed):
     nh = 192 if tier == "quick" else 12000
     hists = []
     for i in range(nh):
-        h = gen_history(rng)
+        h = gen_history(rng) if i % 3 else gen_layout_history(rng)
         h["id"] = "e%d" % i
         hists.append(h)
     per = 12
@@ -331,7 +389,7 @@ def check(rep, tier, seed):
     gcs = 0
     for hs, res, procs, sched, variant in R.pmap(run_batch, list(enumerate(batches))):
         for h in hs:
-            rep.case(("history", (sched or "none").split(":")[0], variant))
+            rep.case(("history", h.get("family", "mixed"), (sched or "none").split(":")[0], variant))
             judge(rep, h, res.get(h["id"]), sched)
         for p in procs:
             for l in p.log_lines("HEAPCHECK-FAIL"):
